@@ -10,7 +10,10 @@ package evmlane
 // 03e: EVM-lane only. Cosmos lane: straight to the continuation, nothing touched. Ethereum lane: continues only for a
 // non-empty sender address whose account has no contract code (an externally owned account).
 //@ func (ead ELValidateBasicEoaDecorator) AnteHandle(ctx sdk.Context, tx sdk.Tx, simulate bool, next sdk.AnteHandler) (newCtx sdk.Context, err error)
+//@   requires tx != nil && txUnpacked(payload(tx))
 //@   modifies everything
+// own panics: msg.From is not bech32 (excluded by 03: msg.ValidateBasic)
+//@   panics[C20.own_code_panics] only_if hcPanics[hcN[0]] || (single(payload(tx)) && !bech32Valid(ethMsgOf(payload(tx)).From))
 //@   ensures[C07.cosmos_passes] !single(payload(tx)) ==> (hcN[0] == old(hcN[0]) + 1 && hcKind[old(hcN[0])] == 0 && hcCallee[old(hcN[0])] == next && hcCtx[old(hcN[0])] == ctx && hcTxTag[old(hcN[0])] == typeof(tx) && hcTx[old(hcN[0])] == payload(tx) && hcSim[old(hcN[0])] == simulate && newCtx == hcResCtx[old(hcN[0])] && typeof(err) == hcResErrTag[old(hcN[0])] && payload(err) == hcResErr[old(hcN[0])] && hcSawFlagNonce[old(hcN[0])] == old(trFlagNonce[layer(ctx)]) && hcSawFlagPaid[old(hcN[0])] == old(trFlagPaid[layer(ctx)]) && hcSawSeq[old(hcN[0])] == old(acctSeq[layer(ctx)]))
 //@   ensures[C07.eth_next_or_reject] single(payload(tx)) ==> ((hcN[0] == old(hcN[0]) + 1 && hcKind[old(hcN[0])] == 0 && hcCallee[old(hcN[0])] == next && hcCtx[old(hcN[0])] == ctx && hcTxTag[old(hcN[0])] == typeof(tx) && hcTx[old(hcN[0])] == payload(tx) && hcSim[old(hcN[0])] == simulate && newCtx == hcResCtx[old(hcN[0])] && typeof(err) == hcResErrTag[old(hcN[0])] && payload(err) == hcResErr[old(hcN[0])] && hcSawFlagNonce[old(hcN[0])] == old(trFlagNonce[layer(ctx)]) && hcSawFlagPaid[old(hcN[0])] == old(trFlagPaid[layer(ctx)]) && hcSawSeq[old(hcN[0])] == old(acctSeq[layer(ctx)])) || (hcN[0] == old(hcN[0]) && err != nil && newCtx == ctx))
 //@   ensures[C06.sender_is_eoa] (single(payload(tx)) && hcN[0] == old(hcN[0]) + 1) ==> old(isEmptyCodeHash(evmCodeHash[layer(ctx)][bech32Bytes(ethMsgOf(payload(tx)).From)]))
@@ -20,7 +23,9 @@ package evmlane
 // and header — and sees the tx counter advanced by one, the tx's whole gas limit recorded as its gas used and a placeholder receipt
 // stored under the new index, so that every counted tx has a receipt (receipts stay dense).
 //@ func (sed ELSetupExecutionDecorator) AnteHandle(ctx sdk.Context, tx sdk.Tx, simulate bool, next sdk.AnteHandler) (newCtx sdk.Context, err error)
+//@   requires tx != nil && txUnpacked(payload(tx))
 //@   modifies everything
+//@   panics[C20.own_code_panics] only_if hcPanics[hcN[0]]
 //@   requires single(payload(tx)) ==> (trCount[layer(ctx)] + 1 < pow2(64) && txDecodable(bytes(ethMsgOf(payload(tx)).MarshalledTx)) && decType(bytes(ethMsgOf(payload(tx)).MarshalledTx)) <= 2)
 //@   ensures[C07.cosmos_passes] !single(payload(tx)) ==> (hcN[0] == old(hcN[0]) + 1 && hcKind[old(hcN[0])] == 0 && hcCallee[old(hcN[0])] == next && hcCtx[old(hcN[0])] == ctx && hcTxTag[old(hcN[0])] == typeof(tx) && hcTx[old(hcN[0])] == payload(tx) && hcSim[old(hcN[0])] == simulate && newCtx == hcResCtx[old(hcN[0])] && typeof(err) == hcResErrTag[old(hcN[0])] && payload(err) == hcResErr[old(hcN[0])] && hcSawFlagNonce[old(hcN[0])] == old(trFlagNonce[layer(ctx)]) && hcSawFlagPaid[old(hcN[0])] == old(trFlagPaid[layer(ctx)]) && hcSawSeq[old(hcN[0])] == old(acctSeq[layer(ctx)]))
 //@   ensures[C07.eth_continues,C13.eth_continues] single(payload(tx)) ==> (hcN[0] == old(hcN[0]) + 1 && hcKind[old(hcN[0])] == 0 && hcCallee[old(hcN[0])] == next && hcTxTag[old(hcN[0])] == typeof(tx) && hcTx[old(hcN[0])] == payload(tx) && hcSim[old(hcN[0])] == simulate && newCtx == hcResCtx[old(hcN[0])] && typeof(err) == hcResErrTag[old(hcN[0])] && payload(err) == hcResErr[old(hcN[0])] && layer(hcCtx[old(hcN[0])]) == layer(ctx) && hdr(hcCtx[old(hcN[0])]) == hdr(ctx) && mode(hcCtx[old(hcN[0])]) == mode(ctx))
@@ -34,7 +39,10 @@ package evmlane
 //@ import evmtypes "github.com/EscanBE/evermint/v12/x/evm/types"
 //@ import strconv "strconv"
 //@ func (eed ELEmitEventDecorator) AnteHandle(ctx sdk.Context, tx sdk.Tx, simulate bool, next sdk.AnteHandler) (newCtx sdk.Context, err error)
+//@   requires tx != nil && txUnpacked(payload(tx))
 //@   modifies everything
+// own panics: the embedded bytes do not decode (excluded by 03)
+//@   panics[C20.own_code_panics] only_if hcPanics[hcN[0]] || (single(payload(tx)) && !txDecodable(bytes(ethMsgOf(payload(tx)).MarshalledTx)))
 //@   ensures[C07.cosmos_passes] !single(payload(tx)) ==> (hcN[0] == old(hcN[0]) + 1 && hcKind[old(hcN[0])] == 0 && hcCallee[old(hcN[0])] == next && hcCtx[old(hcN[0])] == ctx && hcTxTag[old(hcN[0])] == typeof(tx) && hcTx[old(hcN[0])] == payload(tx) && hcSim[old(hcN[0])] == simulate && newCtx == hcResCtx[old(hcN[0])] && typeof(err) == hcResErrTag[old(hcN[0])] && payload(err) == hcResErr[old(hcN[0])] && hcSawFlagNonce[old(hcN[0])] == old(trFlagNonce[layer(ctx)]) && hcSawFlagPaid[old(hcN[0])] == old(trFlagPaid[layer(ctx)]) && hcSawSeq[old(hcN[0])] == old(acctSeq[layer(ctx)]))
 //@   ensures[C07.eth_continues,C13.eth_continues] single(payload(tx)) ==> (hcN[0] == old(hcN[0]) + 1 && hcKind[old(hcN[0])] == 0 && hcCallee[old(hcN[0])] == next && hcCtx[old(hcN[0])] == ctx && hcTxTag[old(hcN[0])] == typeof(tx) && hcTx[old(hcN[0])] == payload(tx) && hcSim[old(hcN[0])] == simulate && newCtx == hcResCtx[old(hcN[0])] && typeof(err) == hcResErrTag[old(hcN[0])] && payload(err) == hcResErr[old(hcN[0])] && hcSawFlagNonce[old(hcN[0])] == old(trFlagNonce[layer(ctx)]) && hcSawFlagPaid[old(hcN[0])] == old(trFlagPaid[layer(ctx)]) && hcSawSeq[old(hcN[0])] == old(acctSeq[layer(ctx)]))
 //@   at call types.EventManagerI.EmitEvent@1 assert[C13.ante_event_on_ctx_manager] recv == ctx.EventManager() && single(payload(tx))
@@ -50,7 +58,11 @@ package evmlane
 // requires: the stored fee-market params are valid (x/feemarket SetParams: base fee present), as for the fee checkers.
 //@ func (ed ELExecWithoutErrorDecorator) AnteHandle(ctx sdk.Context, tx sdk.Tx, simulate bool, next sdk.AnteHandler) (newCtx sdk.Context, err error)
 //@   requires !fmBaseFeeNil[layer(ctx)]
+//@   requires tx != nil && txUnpacked(payload(tx))
 //@   modifies everything
+// own panics (trial path only): bytes do not decode / signature invalid (the explicit panic(err); both excluded by 03), chain id unset,
+// msg.From not bech32 or the sender's account missing while the "nonce increased" flag is set (excluded by 03 / 07 / 11 / 12)
+//@   panics[C20.own_code_panics] only_if hcPanics[hcN[0]] || (single(payload(tx)) && (ctx.IsCheckTx() || ctx.IsReCheckTx() || simulate) && (!txDecodable(bytes(ethMsgOf(payload(tx)).MarshalledTx)) || !decSigOk(bytes(ethMsgOf(payload(tx)).MarshalledTx)) || evmChainId[layer(ctx)] == 0 || (trFlagNonce[layer(ctx)] && (!bech32Valid(ethMsgOf(payload(tx)).From) || !acctExists[layer(ctx)][bech32Bytes(ethMsgOf(payload(tx)).From)]))))
 //@   ensures[C07.cosmos_passes,C08.cosmos_passes] !single(payload(tx)) ==> (hcN[0] == old(hcN[0]) + 1 && hcKind[old(hcN[0])] == 0 && hcCallee[old(hcN[0])] == next && hcCtx[old(hcN[0])] == ctx && hcTxTag[old(hcN[0])] == typeof(tx) && hcTx[old(hcN[0])] == payload(tx) && hcSim[old(hcN[0])] == simulate && newCtx == hcResCtx[old(hcN[0])] && typeof(err) == hcResErrTag[old(hcN[0])] && payload(err) == hcResErr[old(hcN[0])] && hcSawFlagNonce[old(hcN[0])] == old(trFlagNonce[layer(ctx)]) && hcSawFlagPaid[old(hcN[0])] == old(trFlagPaid[layer(ctx)]) && hcSawSeq[old(hcN[0])] == old(acctSeq[layer(ctx)]))
 //@   ensures[C07.deliver_passes,C08.deliver_passes] (!ctx.IsCheckTx() && !ctx.IsReCheckTx() && !simulate) ==> (hcN[0] == old(hcN[0]) + 1 && hcKind[old(hcN[0])] == 0 && hcCallee[old(hcN[0])] == next && hcCtx[old(hcN[0])] == ctx && hcTxTag[old(hcN[0])] == typeof(tx) && hcTx[old(hcN[0])] == payload(tx) && hcSim[old(hcN[0])] == simulate && newCtx == hcResCtx[old(hcN[0])] && typeof(err) == hcResErrTag[old(hcN[0])] && payload(err) == hcResErr[old(hcN[0])] && hcSawFlagNonce[old(hcN[0])] == old(trFlagNonce[layer(ctx)]) && hcSawFlagPaid[old(hcN[0])] == old(trFlagPaid[layer(ctx)]) && hcSawSeq[old(hcN[0])] == old(acctSeq[layer(ctx)]))
 //@   ensures[C08.trial_next_or_reject] ((hcN[0] == old(hcN[0]) + 1 && hcKind[old(hcN[0])] == 0 && hcCallee[old(hcN[0])] == next && hcTxTag[old(hcN[0])] == typeof(tx) && hcTx[old(hcN[0])] == payload(tx) && hcSim[old(hcN[0])] == simulate && newCtx == hcResCtx[old(hcN[0])] && typeof(err) == hcResErrTag[old(hcN[0])] && payload(err) == hcResErr[old(hcN[0])] && hcCtx[old(hcN[0])] == ctx) || (hcN[0] == old(hcN[0]) && err != nil && newCtx == ctx))
